@@ -83,6 +83,8 @@ def make_cases(ctx):
             for g in groups:
                 yield "dnoext-%d-%s-%s" % (cver[1], kx, g), {
                     "dnoext": [cver, kx, kind_, g]}
+    for ck in ("rsa", "ecdsa", None):
+        yield "dreq13-%s" % ck, {"dreq13": ck}
     # finite-field parameters of the server's own (no RFC 7919 group in
     # common) whose prime is not a whole number of bytes long, against the
     # client's key size bounds one bit either side of it
@@ -469,6 +471,20 @@ def run_case(ctx, cid, P):
         alpn_c = alpn_s = npn_c = npn_s = sni = None
         resume, cache = False, None
         ctx.count("directed_signature_policies")
+    elif "dreq13" in P:
+        # a TLS 1.3 server asked to request a client certificate while its
+        # settings leave no scheme a client could sign with (the server's
+        # own brainpool key does not depend on those lists): whatever
+        # happens, it is not an internal error of the library
+        cd = {"minVersion": (3, 4), "maxVersion": (3, 4)}
+        sd = {"minVersion": (3, 4), "maxVersion": (3, 4),
+              "rsaSchemes": ["pkcs1"], "ecdsaSigHashes": [],
+              "more_sig_schemes": []}
+        cs, ss = policy.build(cd), policy.build(sd)
+        kind, skey, ckey, req_cert = "cert", "bp256", P["dreq13"], True
+        alpn_c = alpn_s = npn_c = npn_s = sni = None
+        resume, cache = False, None
+        ctx.count("directed_request_without_schemes")
     elif "ddh" in P:
         cver, kx, kind, lo, hi = P["ddh"]
         cver = tuple(cver)
